@@ -795,6 +795,8 @@ def rule_round5(repo, rep):
         raise AnalysisError(f"quantisation aliases: only {n_al} found")
     rep.check(True, "C11-i", "ethosu/vela", f"{n_al} local aliases of quantisation records are read only", "")
     rep.floor("C11-i", 4)
+    rep.clause("C11-r", "the writer restores the source tensor of an operand only if the operand is a constant (computed operands keep the tensor the graph produces)")
+    rule_src_tensor_restore(repo, rep)
     rep.clause("C11-q", "every option member the serialiser produced is added to the table unconditionally (an omitted field reads back as the schema default, not as the falsy value)")
     rule_serialise_all_members(repo, rep)
     rep.clause("C11-p", "a tensor's shape list and constant values are edited only through a copy: no in-place mutation of `<tensor>.shape` / `<tensor>.values` or of a bare alias of them in the rewrites and checks")
@@ -1057,3 +1059,26 @@ def rule_serialise_all_members(repo, rep):
     rep.check(bool(direct) and not conditional and not skips, "C11-q", site, "every serialised member is added to the option table, whatever its value",
               f"the Add<Member> call is conditional (`{str(norm(conditional[0].test))[:40] if conditional and isinstance(conditional[0], ast.If) else 'continue'}`): a member left out reads back as the schema default - "
               "pot_scale_int16 = false of a CPU-resident ADD / SUB is written as true")
+
+
+def rule_src_tensor_restore(repo, rep):
+    """(r) for CPU-resident convolutions the writer writes the tensors of the source file back in place of the reader's clones
+    (`op.inputs[idx] = inp.src_tensor`). `src_tensor` is also how an NPU-produced tensor points at its counterpart inside the Ethos-U
+    operator, so the restore must be limited to constants (`inp.values is not None` / a Const producer) operand by operand - the test on
+    the weights alone lets a computed bias be replaced by a tensor nothing in the written graph produces."""
+    tw = repo.mod("tflite_writer")
+    n = 0
+    for q, fn in tw.functions.items():
+        for a in ast.walk(fn):
+            if isinstance(a, ast.Assign) and len(a.targets) == 1 and isinstance(a.targets[0], ast.Subscript) and str(norm(a.targets[0].value)).endswith(".inputs") and str(norm(a.value)).endswith(".src_tensor"):
+                n += 1
+                v = str(norm(a.value))[: -len(".src_tensor")]
+                guard = tw.parents.get(a)
+                while guard is not None and not isinstance(guard, ast.If):
+                    guard = tw.parents.get(guard)
+                cj = [str(norm(c)) for c in conjuncts(guard.test)] if guard is not None else []
+                ok = any(c in (f"{v}.values is not None", f"{v}.ops[0].type == Op.Const", f"{v}.is_const") for c in cj)
+                rep.check(ok, "C11-r", f"ethosu/vela/tflite_writer.py:{q}", f"`{str(norm(a))}` only for a constant operand (`{v}.values is not None`)",
+                          f"guard {cj}: a CPU-resident CONV_2D whose bias is produced by an NPU operator is written with the operand `b_cpu`, a tensor that is neither an input, a constant nor the output of any written operator")
+    if n < 1:
+        raise AnalysisError("tflite_writer: the restore of source tensors was not found")
